@@ -8,17 +8,24 @@ use std::time::{Duration, Instant};
 /// Allocation tracker: the largest single allocation request since the last reset (C06: no unbounded allocation).
 pub struct Tracking;
 pub static MAX_ALLOC: AtomicUsize = AtomicUsize::new(0);
+/// only requests of 64 KiB and more are recorded (the shared counter would otherwise serialise the threads)
+#[inline]
+fn note(n: usize) {
+    if n >= 1 << 16 {
+        MAX_ALLOC.fetch_max(n, Ordering::Relaxed);
+    }
+}
 unsafe impl GlobalAlloc for Tracking {
     unsafe fn alloc(&self, l: Layout) -> *mut u8 {
-        MAX_ALLOC.fetch_max(l.size(), Ordering::Relaxed);
+        note(l.size());
         System.alloc(l)
     }
     unsafe fn alloc_zeroed(&self, l: Layout) -> *mut u8 {
-        MAX_ALLOC.fetch_max(l.size(), Ordering::Relaxed);
+        note(l.size());
         System.alloc_zeroed(l)
     }
     unsafe fn realloc(&self, p: *mut u8, l: Layout, n: usize) -> *mut u8 {
-        MAX_ALLOC.fetch_max(n, Ordering::Relaxed);
+        note(n);
         System.realloc(p, l, n)
     }
     unsafe fn dealloc(&self, p: *mut u8, l: Layout) {
@@ -35,6 +42,7 @@ mod expect;
 mod iter;
 mod parse;
 mod quote;
+mod refsem;
 mod replace;
 mod search;
 mod state_ops;
@@ -68,6 +76,7 @@ fn family(name: &str) -> Option<Box<dyn Family>> {
         "expand" => Some(Box::new(expand::Expand)),
         "replace" => Some(Box::new(replace::Replace)),
         "search" => Some(Box::new(search::Search)),
+        "refsem" => Some(Box::new(refsem::RefSem)),
         _ => None,
     }
 }
